@@ -79,7 +79,9 @@ Lemma get_prop_good inp v1 k s v s' : get_prop inp v1 k s = Ok v s' ->
   match v with VClos _ _ _ => False | _ => True end.
 Proof.
   destruct v1; simpl; intros H; try discriminate.
-  - destruct (String.eqb k "length"); inversion H; subst; exact Logic.I.
+  - inversion H; subst; exact Logic.I.
+  - destruct (String.eqb k "length"); [|destruct (all_digits k); [discriminate|]]; inversion H; subst; exact Logic.I.
+  - inversion H; subst; exact Logic.I.
   - inversion H; subst. destruct (assoc k inp) as [i|]; [destruct i|]; exact Logic.I.
   - inversion H; subst. destruct (assoc k fs); exact Logic.I.
 Qed.
